@@ -382,13 +382,13 @@ def panic_sites(C, R, F, E, roles, cfg):
                 cat = 'documented: try_send panics on unbuffered channels'
             elif name == 'expect' and ('contain value' in _expect_msg(fn, b) or 'must be available' in _expect_msg(fn, b)):
                 cat = 'unreachable by the value invariant V (checked below): a live Registered/Unregistered sender holds its value'
-            elif name == 'unreachable_display' and fn.get('name') == 'try_receive':
+            elif name == 'unreachable_display' and p.startswith('channel::oneshot'):
                 cat = 'unreachable: RecvPollState::Notified is never produced in the oneshot modules (C12.R5)'
             elif 'is_fair' in msg or 'Fair semaphores' in msg:
                 cat = 'unreachable by the fair hand-over invariant (C04.R1+R2 / C07.R1+R4): nobody but the notified head can take the resource'
             elif name == 'unwrap' and fn.get('name') in ('poll_next',) or (fn['kind'] == 'closure' and 'poll_next' in p):
                 cat = 'unreachable: the slot was filled on the line before (no feasible None path, checked below)'
-            elif name == 'assert_failed' and fn.get('name') == 'try_take_value_from_sender':
+            elif name == 'assert_failed' and fn.get('impl_adt') == 'channel::mpmc::ChannelState':
                 cat = 'unreachable by the refill invariant (C09.R2): with capacity > 0 no sender stays parked while the buffer is empty'
             elif p.endswith('DropBomb as std::ops::Drop>::drop'):
                 cat = 'by design: a panicking comparison aborts'
